@@ -1,10 +1,17 @@
 """Coverage-guided driver (atheris / libFuzzer) for the history properties.
 
 The fuzz target is the same executable property the Hypothesis runner uses:
-``bytes -> Hypothesis choice sequence -> (config, tape[, probes]) ->
-mod.check(case)`` through ``test.hypothesis.fuzz_one_input``; the semantic
-oracle runs inside the target, libFuzzer only supplies inputs and keeps those
-that reach new pokerkit code (``pokerkit`` is the only instrumented package).
+``bytes -> (config from a generated pool, tape[, probe tape]) ->
+mod.check(case)``; the semantic oracle runs inside the target, libFuzzer only
+supplies inputs and keeps those that reach new pokerkit code (``pokerkit`` is
+the only instrumented package).  The first two bytes pick one of ~200 configs
+drawn beforehand from the property's own Hypothesis strategy (fixed seed), the
+remaining bytes are the tape itself, so a byte mutation is a changed player
+decision (a first version decoded the bytes through Hypothesis'
+``fuzz_one_input``; measured, it only ever produced short default-heavy tapes
+and missed a seeded defect the plain Hypothesis run finds, so it was
+replaced).  Half of the worker processes start from an empty corpus, half
+from the pool's own generated tapes.
 
   python -m pkv.fuzz worker C07 WORKDIR RUNS SEED     one libFuzzer process
   campaign(prop, ...)                                  N workers, merged
@@ -110,7 +117,61 @@ def minimise(mod, case, v, budget_s=60):
 # ---------------------------------------------------------------------------
 # worker
 
-def worker(prop_id, workdir, runs, seed, tier='thorough', max_len=4096):
+def build_pool(mod, tier, seed, size):
+    """A deterministic pool of generated cases (configs with their tapes and
+    extras) drawn from the property's own Hypothesis strategy."""
+    from hypothesis import HealthCheck, Phase, given, settings
+    from hypothesis import seed as hseed
+    pool = []
+
+    @hseed(seed)
+    @settings(database=None, deadline=None, max_examples=size,
+              phases=(Phase.generate,),
+              suppress_health_check=list(HealthCheck))
+    @given(mod.strategy(tier))
+    def collect(case):
+        pool.append(case)
+
+    collect()
+    return pool
+
+
+def encode(idx, case):
+    """Pool index + tapes -> bytes (the inverse of ``decode`` up to tape
+    length): 2 bytes pool index, then 16-bit big-endian tape values; a second
+    tape (``probe``) is interleaved value by value."""
+    tapes = [list(case.get('tape') or [])]
+    if isinstance(case.get('probe'), list):
+        tapes.append(list(case['probe']))
+    n = max(len(t) for t in tapes)
+    out = bytearray(idx.to_bytes(2, 'big'))
+    for i in range(n):
+        for t in tapes:
+            out += (t[i] if i < len(t) else 0).to_bytes(2, 'big')
+    return bytes(out)
+
+
+def decode(data, pool):
+    """bytes -> case: the first two bytes choose a generated config (with its
+    extras) from the pool, the rest is the tape (and the probe tape, value by
+    value interleaved).  Every byte string is a valid case, so libFuzzer's
+    mutations act directly on the players' decisions."""
+    if len(data) < 2:
+        data = data + b'\0' * (2 - len(data))
+    base = pool[int.from_bytes(data[:2], 'big') % len(pool)]
+    vals = [int.from_bytes(data[i:i + 2], 'big')
+            for i in range(2, len(data) - 1, 2)]
+    case = dict(base)
+    if isinstance(base.get('probe'), list):
+        case['tape'] = vals[0::2]
+        case['probe'] = vals[1::2]
+    else:
+        case['tape'] = vals
+    return case
+
+
+def worker(prop_id, workdir, runs, seed, tier='thorough', max_len=1024,
+           seed_corpus=True, pool_size=192):
     if not ensure_atheris():
         print('atheris unavailable')
         return 3
@@ -120,7 +181,6 @@ def worker(prop_id, workdir, runs, seed, tier='thorough', max_len=4096):
         import pokerkit.state  # noqa: F401
         import pokerkit.notation  # noqa: F401
         import pokerkit.analysis  # noqa: F401
-    from hypothesis import HealthCheck, given, settings
     from .runner import Stats, load_known, load_prop
     mod = load_prop(prop_id)
     stats = Stats()
@@ -129,6 +189,7 @@ def worker(prop_id, workdir, runs, seed, tier='thorough', max_len=4096):
     known_hits = {}
     state = dict(n=0, t0=time.time())
     stats_path = os.path.join(workdir, 'stats.json')
+    pool = build_pool(mod, tier, seed, pool_size)
 
     def dump():
         out = stats.export()
@@ -139,10 +200,8 @@ def worker(prop_id, workdir, runs, seed, tier='thorough', max_len=4096):
             json.dump(out, f, default=repr)
         os.replace(tmp, stats_path)
 
-    @settings(database=None, deadline=None, max_examples=1,
-              suppress_health_check=list(HealthCheck))
-    @given(mod.strategy(tier))
-    def test(case):
+    def test_one_input(data):
+        case = decode(data, pool)
         stats.evaluations += 1
         state['n'] += 1
         viols = mod.check(case, stats)
@@ -165,10 +224,15 @@ def worker(prop_id, workdir, runs, seed, tier='thorough', max_len=4096):
 
     corpus = os.path.join(workdir, 'corpus')
     os.makedirs(corpus, exist_ok=True)
+    if seed_corpus:
+        # small valid inputs: the pool's own generated tapes
+        for i, c in enumerate(pool):
+            with open(os.path.join(corpus, f'pool{i:04d}'), 'wb') as f:
+                f.write(encode(i, c)[:max_len])
     argv = [sys.argv[0], f'-seed={seed}', f'-max_len={max_len}',
             f'-artifact_prefix={workdir}/', '-print_final_stats=0',
             '-verbosity=0', '-timeout=120', '-rss_limit_mb=4096', corpus]
-    atheris.Setup(argv, test.hypothesis.fuzz_one_input)
+    atheris.Setup(argv, test_one_input)
     atheris.Fuzz()
     return 0
 
@@ -195,7 +259,8 @@ def campaign(prop_id, nproc, runs_per_proc, seed, wall_s, tier='thorough'):
             log = open(os.path.join(wd, 'log'), 'w')
             p = subprocess.Popen(
                 [sys.executable, '-m', 'pkv.fuzz', 'worker', prop_id, wd,
-                 str(runs_per_proc), str(s), tier],
+                 str(runs_per_proc), str(s), tier,
+                 'seeded' if i % 2 == 0 else 'empty'],
                 cwd=wd, env=env, stdout=log, stderr=subprocess.STDOUT)
             procs.append((p, wd, log, s))
         deadline = time.time() + wall_s
@@ -236,7 +301,9 @@ if __name__ == '__main__':
     if len(sys.argv) >= 6 and sys.argv[1] == 'worker':
         _, _, pid, wd, runs, seed = sys.argv[:6]
         tier = sys.argv[6] if len(sys.argv) > 6 else 'thorough'
+        seeded = (sys.argv[7] if len(sys.argv) > 7 else 'seeded') == 'seeded'
         del sys.argv[1:]
-        sys.exit(worker(pid, wd, int(runs), int(seed), tier))
+        sys.exit(worker(pid, wd, int(runs), int(seed), tier,
+                        seed_corpus=seeded))
     print(__doc__)
     sys.exit(2)
